@@ -102,6 +102,11 @@ CHECKS = {
             "Partial. Solver-decided: the flag invariant for every page and every initial value (hence every generation order), well-nestedness of the real patcher's output on every module, directive location on symbolic docstrings. NOT solver-decided (stated): totality, one page per module, placeholder substitution by the module's own renderings, symbol tables and determinism come from one real generate_laws_docs run over the working tree (twice).",
             "Trusted: z3, CrossHair, the independent expectation of documented members read from the unpatched source. Sphinx build and role resolution are outside.",
             "3.19"),
+    "C03": ("LIA+replay", "other",
+            "z3 (LIA encoding of decimal-string order, self-validated) enumerates with blocking clauses every order type of a module's id block against itself and the pool ids it touches until unsat (cover proof); each representative history is replayed in a fresh process against the default history",
+            "Partial. The solver proves that the replayed counter states represent every history within the bound (ids < 10^7, one joint offset, dependencies fresh) up to the stated order features; the per-history verdict (import succeeds with its derivation asserts, same meaning of every public equation, same calculate_* values) is by concrete replay. Quick tier: modules touched by the working tree/last commit plus a seed-chosen sample; thorough: all modules.",
+            "Assumes a module's behaviour depends on the history only through SymPy's ordering of generated names; string-hash order, SymPy cache state and dependencies imported earlier at unrelated offsets are outside.",
+            "3.3"),
 }
 
 NOT_APPLICABLE = {
